@@ -333,3 +333,12 @@ Theorem l_insert_spec p k v : l_insert p k v = p ++ [(k, v)] /\
 Proof.
   split; [reflexivity|]. unfold l_insert. rewrite l_get_app. cbn [l_get]. rewrite str_eqb_refl. reflexivity.
 Qed.
+
+(* the same for a single paragraph through <lossy::Paragraph as FromStr>::from_str *)
+Theorem C08_paragraph_roundtrip p : canon_para p = true -> lossy_paragraph_from_str (print_para p) = Ok p.
+Proof.
+  intros H. assert (Hd : canon_doc [p] = true) by (cbn [canon_doc forallb]; rewrite H; reflexivity).
+  destruct (C08_roundtrip [p] Hd) as [E _].
+  unfold print_doc in E. cbn [print_doc_from app] in E. rewrite app_nil_r in E.
+  unfold lossy_paragraph_from_str. rewrite E. reflexivity.
+Qed.
